@@ -439,7 +439,11 @@ def run_kani_ob(build, ob, playback=False):
     shutil.rmtree(tmpd, ignore_errors=True)
     os.makedirs(tmpd)
     cmd = ["cargo", "kani", "-p", ob["pkg"], "--harness", ob["harness"], "--exact"] + KANI_FLAGS
-    cmd += ["--solver", ob.get("solver", "kissat"), "--default-unwind", str(ob.get("default_unwind", 70)), "--no-assertion-reach-checks"]
+    cmd += ["--solver", ob.get("solver", "kissat"), "--no-assertion-reach-checks"]
+    if not ob.get("unwindset"):
+        # (kani refuses its own unwind flags together with --cbmc-args --unwindset; harnesses with an
+        # unwindset carry #[kani::unwind] for their own loops)
+        cmd += ["--default-unwind", str(ob.get("default_unwind", 70))]
     if playback:
         cmd += ["-Z", "concrete-playback", "--concrete-playback=print"]
     if ob.get("unwindset"):
